@@ -1,0 +1,5 @@
+//go:build !verif
+
+package util
+
+func vyield(point string) {}
